@@ -154,7 +154,7 @@ package wtxmgr
 //@ spec func cvArr(amt Int, flags Int) [Int]Int
 //@ axiom cvArr_def: forall a Int, f Int, i Int :: {select(cvArr(a, f), i)}
 //@     select(cvArr(a, f), i) == ((0 <= i && i < 8) ? be64byte(a, i) : (i == 8 ? f : 0))
-//@ spec func V_cr(amt Int, change Bool) Bytes = mkbytes(9, cvArr(u64(amt), change ? 2 : 0))
+//@ spec axiomatic func V_cr(amt Int, change Bool) Bytes = mkbytes(9, cvArr(u64(amt), change ? 2 : 0))
 //@ macro B_C(ns) = sub(bid(ns), bytes(bucketCredits))
 //@ macro SPENT_FLAG(v) = (bat(v, 8) % 2 == 1)
 
@@ -306,6 +306,8 @@ package wtxmgr
 //@   property C01 C12
 //@   requires wf: s != nil && s.clock != nil && ns != nil && INV_LO(ns) && select(DBlive, B_C(ns)) && select(DBlive, B_MI(ns))
 //@   requires amounts: INV_C_AMOUNTS(ns) && 0 - 4000000000000000000 <= bal && bal <= 4000000000000000000
+//@   requires db_pair: (k == nil || dbmem(k.base)) && (v == nil || dbmem(v.base))
+// added for C01 (non-aliasing: the pair handed in by ForEach is database memory, not the captured op / block)
 //@   ensures decoded_len: err == nil ==> len(k) >= 36 && len(v) >= 36
 //@   ensures decoded_height: err == nil ==> block.Height == old(i32(be32(v[0], v[1], v[2], v[3])))
 //@   ensures decoded_hash: err == nil ==> (forall i Int :: {select(op.Hash, i)} 0 <= i && i < 32 ==> select(op.Hash, i) == old(k[i]))
@@ -323,6 +325,8 @@ package wtxmgr
 //@   property C01 C12
 //@   requires wf: s != nil && s.clock != nil && ns != nil && INV_LO(ns) && select(DBlive, B_MI(ns))
 //@   requires amounts: 0 - 4000000000000000000 <= bal && bal <= 4000000000000000000 && (len(v) >= 9 ==> 0 <= amtOf(bytes(v)) && amtOf(bytes(v)) <= 2100000000000000)
+//@   requires db_pair: (k == nil || dbmem(k.base)) && (v == nil || dbmem(v.base))
+// added for C01 (non-aliasing: the pair handed in by ForEach is database memory, not the captured op)
 //@   ensures decoded_hash: err == nil ==> len(k) >= 36 && (forall i Int :: {select(op.Hash, i)} 0 <= i && i < 32 ==> select(op.Hash, i) == old(k[i]))
 //@   ensures decoded_index: err == nil ==> op.Index == old(be32(k[32], k[33], k[34], k[35]))
 //@   ensures add_unmined: err == nil && !OP_LEASED(ns, op, tns(clockVal(old(clk)))) && !HAS(B_MI(ns), old(bytes(k))) ==> len(v) >= 9 && bal == old(bal) + amtOf(old(bytes(v)))
@@ -380,6 +384,24 @@ package wtxmgr
 //@   property C01 C12
 //@   requires wf: s != nil && s.clock != nil && s.chainParams != nil && ns != nil && INV_LO(ns) && select(DBlive, B_C(ns)) && select(DBlive, B_MI(ns))
 //@   ensures error_zero: err != nil ==> r == 0
+// ---- added for C01 (begin): second pass, innermost loop (loop 3, one transaction of a recent block) ----
+// The running balance decreases by exactly the fold y2sum over the outputs handled so far: an output is
+// subtracted iff it is an unspent credit of this block that is too young / immature, is not leased at this
+// iteration's clock reading and is not spent by an unmined transaction (those two were subtracted in pass 1).
+// Stated while the running balance stays above -4e18 (exact int64 arithmetic) and the confirmation count fits int32.
+//@   requires amounts: INV_C_AMOUNTS(ns)
+//@   reveal y2term
+//@   invariant 3 idx: 0 <= i && i <= numOuts && numOuts == len(rec.MsgTx.TxOut) % 4294967296
+//@   invariant 3 kept: DBhas == loopentry(DBhas) && DBval == loopentry(DBval) && DBlive == loopentry(DBlive)
+//@       && blockIt.elem.Block == loopentry(blockIt.elem.Block) && rec.MsgTx.TxIn == loopentry(rec.MsgTx.TxIn) && ISCB(rec) == loopentry(ISCB(rec))
+//@       && blockIt.elem.transactions[rangeindex + 1] == loopentry(blockIt.elem.transactions[rangeindex + 1])
+//@       && YOUNG(rec, syncHeight, blockIt.elem.Block.Height, minConf, coinbaseMaturity) == loopentry(YOUNG(rec, syncHeight, blockIt.elem.Block.Height, minConf, coinbaseMaturity))
+//@   invariant 3 clock: clk == loopentry(clk) + i
+//@   invariant 3 mark: at(i) && at(i + 1)
+//@   invariant 3 fold: -2147483648 <= CONFS(syncHeight, blockIt.elem.Block.Height) && CONFS(syncHeight, blockIt.elem.Block.Height) <= 2147483647
+//@       && loopentry(bal) - Y2FOLD(ns, i) >= 0 - 4000000000000000000
+//@       ==> at(i) && bal == loopentry(bal) - Y2FOLD(ns, i)
+// ---- added for C01 (end) ----
 
 // ---- spending / unspending a credit, recording a debit: one record each ----
 // spendCredit rewrites the credit k as spent: same amount, spent flag set,
@@ -399,6 +421,8 @@ package wtxmgr
 //@   ensures spender_height: err == nil ==> (forall j Int :: {bat(VAL(B_C(ns), old(bytes(k))), j)} 41 <= j && j < 45 ==> bat(VAL(B_C(ns), old(bytes(k))), j) == be32byte(u32(old(spender.block.Height)), j - 41))
 //@   ensures spender_block: err == nil ==> (forall j Int :: {bat(VAL(B_C(ns), old(bytes(k))), j)} 45 <= j && j < 77 ==> bat(VAL(B_C(ns), old(bytes(k))), j) == old(select(spender.block.Hash, j - 45)))
 //@   ensures spender_index: err == nil ==> (forall j Int :: {bat(VAL(B_C(ns), old(bytes(k))), j)} 77 <= j && j < 81 ==> bat(VAL(B_C(ns), old(bytes(k))), j) == be32byte(old(spender.index), j - 77))
+//@   ensures spender_key: err == nil ==> bsub(VAL(B_C(ns), old(bytes(k))), 9, 81) == K_cr(old(spender.txHash), old(spender.index), old(spender.block.Hash), old(spender.block.Height))
+// added for C01
 //@   ensures failure_changes_nothing: err != nil ==> DB_UNCHANGED()
 
 // unspendRawCredit rewrites an existing credit as unspent (9 bytes, spent flag
